@@ -7,6 +7,9 @@ EXTENDS NumTheory, Bytes, TLC, Json, IOUtils
 Trace == JsonDeserialize(IOEnv.TRACE_FILE)
 VARIABLE i
 
+RECURSIVE PowB(_, _)
+PowB(b, k) == IF k = 0 THEN <<1>> ELSE Mul(PowB(b, k - 1), b)
+
 Bad(e) ==
   CASE e.op = "inverse" ->      \* a (any sign), m, out
          IF ~e.ok THEN {"inverse-raised"} ELSE IF IsInverse(e.a, e.m, e.out) THEN {} ELSE {"inverse-wrong-or-not-reduced"}
@@ -40,6 +43,17 @@ Bad(e) ==
              two == IF low \in {1, 7} THEN 1 ELSE -1
              want == IF e.t % 2 = 0 THEN 1 ELSE two
          IN  IF e.ok /\ e.out = want THEN {} ELSE {"jacobi-of-2^t-q^2"}
+    \* factorisation of an n beyond 31 bits: out = list of <<p, e>> with every p below 2^31 (native, primality by trial division),
+    \* strictly ascending, exponents >= 1, and the product multiplied out on byte sequences equals n
+    [] e.op = "big-factor" ->
+         LET l == e.out
+             RECURSIVE Prod(_)
+             Prod(k) == IF k = 0 THEN <<1>> ELSE Mul(Prod(k - 1), PowB(FromNat(l[k][1]), l[k][2]))
+         IN  IF /\ e.ok
+                /\ \A j \in 1..Len(l) : IsPrime(l[j][1]) /\ l[j][2] >= 1
+                /\ \A j \in 1..(Len(l) - 1) : l[j][1] < l[j + 1][1]
+                /\ Eq(Prod(Len(l)), e.n)
+             THEN {} ELSE {"big-factorization"}
     [] e.op = "big-prime" ->    \* catalogue prime: is_prime must say True
          IF e.out THEN {} ELSE {"is_prime-rejects-a-prime"}
 
